@@ -335,6 +335,15 @@ class WritableVersion(dns.zone.WritableVersion):
                 self.delegations.add(name)
                 self.update_glue_flag(name, True)
         node.replace_rdataset(rdataset)
+        if (
+            name in self.delegations
+            and node.get_rdataset(self.zone.rdclass, dns.rdatatype.NS) is None
+        ):
+            # The stored rdataset (e.g. a CNAME) evicted the NS rdataset, so
+            # this name is no longer a delegation point.
+            node.flags &= ~NodeFlags.DELEGATION  # type: ignore
+            self.delegations.discard(name)
+            self.update_glue_flag(name, False)
 
     def delete_rdataset(
         self,
